@@ -1,5 +1,5 @@
 from dali.command import Command
-from dali.exceptions import CommunicationError
+from dali.exceptions import CommunicationError, UnsupportedFrameTypeError
 import dali.frame
 import logging
 import socket
@@ -42,6 +42,9 @@ class DaliServer:
             s = socket.create_connection(self._target)
 
         assert isinstance(command, Command)
+        if len(command.frame) != 16:
+            # The daliserver protocol carries an address and a command byte
+            raise UnsupportedFrameTypeError
         message = struct.pack("BB", 2, 0) + command.frame.pack
 
         logging.info("command: {}{}".format(
